@@ -179,12 +179,19 @@ func run(ctx *core.Ctx) error {
 			return err
 		}
 	}
+	if ctx.Thorough() {
+		if err := giantObjectStreams(ctx); err != nil {
+			return err
+		}
+	}
 	for _, f := range c02.Families {
 		progs, _, _, err := c02.Programs(ctx, f, ctx.Pick(500, 6000))
 		if err != nil {
 			return err
 		}
 		jobs := c02.Jobs(ctx, f, progs)
+		// files around the field-width boundaries of the cross-reference data
+		jobs = append(jobs, c02.BoundaryJobs(ctx, f, ctx.Pick(40, 400), 300)...)
 		runs, err := c02.ExecuteAll(jobs)
 		if err != nil {
 			return err
@@ -224,6 +231,32 @@ func run(ctx *core.Ctx) error {
 			r := recs[len(recs)/2]
 			ctx.Ev.Sample(map[string]any{"kind": "file judged by PdfFile!WellFormed", "cfg": r.Cfg, "written": r.Written, "sections": summary(r.File)})
 		}
+	}
+	return nil
+}
+
+// giantObjectStreams writes object streams with more members than the
+// Reader's own per-stream limit (10 000) in one WriteCompressed call and has
+// the strict parser judge the result.
+func giantObjectStreams(ctx *core.Ctx) error {
+	var recs []record
+	for _, n := range []int{9999, 10000, 10001, 20003} {
+		r, err := c02.ExecuteGiant(c02.Config{Version: "1.7", Enc: "none"}, n)
+		if err != nil {
+			return core.Infra("giant object stream: %v", err)
+		}
+		recs = append(recs, Observe(r))
+		ctx.Ev.Eval(1)
+		ctx.Ev.Distinct(fmt.Sprintf("giant-objstm-%d", n))
+	}
+	bad, err := core.JudgeCases(ctx, core.TLCOpts{Dir: "file", Module: "Trace_PdfFileObserved", Cfg: "Trace_PdfFileObserved.cfg",
+		Timeout: ctx.Dur(10, 40), XssMB: 1024, XmxMB: 8000}, recs, 1, 4)
+	if err != nil {
+		return err
+	}
+	for _, b := range bad {
+		key, what := classify(recs[b])
+		ctx.Violation(key+"/giant-objstm", what, map[string]any{"giant": len(recs[b].Written)})
 	}
 	return nil
 }
